@@ -837,3 +837,14 @@ V('c19-control-check-skipped-when-short', 'C19', 'C19.TABLE', NM,
 V('c19-twin-checks-merged', 'C19', 'C19.TABLE', NM,
   "        if '--' in test_service_name:\n            raise BadTypeInNameException(\"Service name (%s) must not contain '--'\" % test_service_name)\n\n        if '-' in (test_service_name[0], test_service_name[-1]):\n            raise BadTypeInNameException(\n                \"Service name (%s) may not start or end with '-'\" % test_service_name\n            )",
   "        if '--' in test_service_name or '-' in (test_service_name[0], test_service_name[-1]):\n            raise BadTypeInNameException(\"Service name (%s) has a misplaced '-'\" % test_service_name)", expect='silent')
+
+V('c03-nsec-always-answer', 'C03', 'C03.ADDRNSEC', QHF,
+  "            elif type_ in missing_types:\n                assert service.server", "            elif missing_types:\n                assert service.server")
+V('c03-other-type-as-answer', 'C03', 'C03.ADDRNSEC', QHF,
+  "                if dns_address.type != type_:\n                    additionals.add(dns_address)\n                elif not known_answers.suppresses(dns_address):",
+  "                if not known_answers.suppresses(dns_address):")
+V('c03-seen-only-answers', 'C03', 'C03.ADDRNSEC', QHF,
+  "                seen_types.add(dns_address.type)\n                if dns_address.type != type_:", "                if dns_address.type != type_:",
+  more=[(QHF, "                elif not known_answers.suppresses(dns_address):\n                    answers.append(dns_address)", "                elif not known_answers.suppresses(dns_address):\n                    seen_types.add(dns_address.type)\n                    answers.append(dns_address)")])
+V('c03-nsec-without-answers', 'C03', 'C03.ADDRNSEC', QHF,
+  "            if answers:\n                if missing_types:", "            if answers or missing_types:\n                if missing_types:")
